@@ -637,17 +637,29 @@ type respOp struct {
 	SSRC  int64    `json:"media"`
 	Pairs [][2]int `json:"pairs"`
 	Extra bool     `json:"extra"` // a receiver report precedes the NACK in the compound
+	// further TransportLayerNack packets in the same compound (one resend goroutine each, running concurrently)
+	More []nackJ `json:"more,omitempty"`
+	// the downstream writers return an error for every packet while this NACK is being answered
+	FailW bool `json:"failw,omitempty"`
+}
+
+type nackJ struct {
+	SSRC  int64    `json:"media"`
+	Pairs [][2]int `json:"pairs"`
 }
 
 type emitJ struct {
-	W int   `json:"w"`
-	H hdrJ  `json:"h"`
-	P []int `json:"p"`
+	W   int    `json:"w"`
+	H   hdrJ   `json:"h"`
+	P   []int  `json:"p"`
+	gid uint64 // goroutine that called the downstream writer
 }
 
 type respOut struct {
 	Code  int     `json:"code"`
 	Emits []emitJ `json:"emits"`
+	// compound with several NACKs: the downstream writes grouped by calling goroutine (order of first write)
+	Groups [][]emitJ `json:"groups,omitempty"`
 }
 
 type respCase struct {
@@ -659,18 +671,63 @@ type respCase struct {
 }
 
 type recorder struct {
-	mu    sync.Mutex
-	emits []emitJ
+	mu      sync.Mutex
+	emits   []emitJ
+	failing bool // the downstream transport is failing: every Write returns an error (after being recorded)
+}
+
+var errDownstream = errors.New("downstream writer failed")
+
+// goid is the id of the calling goroutine ("goroutine 123 [running]:...").
+func goid() uint64 {
+	var buf [64]byte
+	n := runtime.Stack(buf[:], false)
+	var id uint64
+	for _, c := range buf[len("goroutine "):n] {
+		if c < '0' || c > '9' {
+			break
+		}
+		id = id*10 + uint64(c-'0')
+	}
+
+	return id
 }
 
 func (rc *recorder) writer(wid int) interceptor.RTPWriter {
 	return interceptor.RTPWriterFunc(func(h *rtp.Header, p []byte, _ interceptor.Attributes) (int, error) {
+		g := goid()
 		rc.mu.Lock()
-		rc.emits = append(rc.emits, emitJ{W: wid, H: projHdr(h), P: ints(p)})
+		rc.emits = append(rc.emits, emitJ{W: wid, H: projHdr(h), P: ints(p), gid: g})
+		failing := rc.failing
 		rc.mu.Unlock()
+		if failing {
+			return 0, errDownstream
+		}
 
 		return len(p), nil
 	})
+}
+
+func (rc *recorder) setFailing(b bool) {
+	rc.mu.Lock()
+	rc.failing = b
+	rc.mu.Unlock()
+}
+
+func groupByGoroutine(es []emitJ) [][]emitJ {
+	idx := map[uint64]int{}
+	out := [][]emitJ{}
+	for _, e := range es {
+		k, ok := idx[e.gid]
+		if !ok {
+			k = len(out)
+			idx[e.gid] = k
+			out = append(out, nil)
+		}
+		out[k] = append(out[k], e)
+	}
+
+	return out
 }
 
 func (rc *recorder) take() []emitJ {
@@ -745,17 +802,25 @@ func runResp(size int, copyPkts bool, start int, ops []respOp) (respCase, string
 		case "bind":
 			handles = append(handles, icpt.BindLocalStream(o.Info.info(), rec.writer(o.W)))
 		case "write":
-			_, err := handles[o.Hid].Write(o.H.rtp(), bytesOf(o.P, o.Nil), interceptor.Attributes{})
+			hdr, pay := o.H.rtp(), bytesOf(o.P, o.Nil)
+			_, err := handles[o.Hid].Write(hdr, pay, interceptor.Attributes{})
 			out.Code = errCode(err)
+			if copyPkts { // with DisableCopy the caller's header and buffer ARE the stored packet, by contract
+				scribble(hdr, pay)
+			}
 		case "nack":
-			n := &rtcp.TransportLayerNack{SenderSSRC: 77, MediaSSRC: uint32(o.SSRC)} //nolint:gosec
-			for _, p := range o.Pairs {
-				n.Nacks = append(n.Nacks, rtcp.NackPair{PacketID: uint16(p[0]), LostPackets: rtcp.PacketBitmap(p[1])}) //nolint:gosec
-			}
-			pkts := []rtcp.Packet{n}
+			var pkts []rtcp.Packet
 			if o.Extra {
-				pkts = []rtcp.Packet{&rtcp.ReceiverReport{SSRC: 77}, n}
+				pkts = append(pkts, &rtcp.ReceiverReport{SSRC: 77})
 			}
+			for _, nj := range append([]nackJ{{SSRC: o.SSRC, Pairs: o.Pairs}}, o.More...) {
+				n := &rtcp.TransportLayerNack{SenderSSRC: 77, MediaSSRC: uint32(nj.SSRC)} //nolint:gosec
+				for _, p := range nj.Pairs {
+					n.Nacks = append(n.Nacks, rtcp.NackPair{PacketID: uint16(p[0]), LostPackets: rtcp.PacketBitmap(p[1])}) //nolint:gosec
+				}
+				pkts = append(pkts, n)
+			}
+			rec.setFailing(o.FailW)
 			raw, err := rtcp.Marshal(pkts)
 			if err != nil {
 				return c, "rtcp marshal: " + err.Error()
@@ -769,6 +834,7 @@ func runResp(size int, copyPkts bool, start int, ops []respOp) (respCase, string
 			if !quiesce(base) {
 				fail = "resend goroutine did not finish within 10 s"
 			}
+			rec.setFailing(false)
 		case "unbind":
 			icpt.UnbindLocalStream(o.Info.info())
 		default:
@@ -777,6 +843,9 @@ func runResp(size int, copyPkts bool, start int, ops []respOp) (respCase, string
 			}
 		}
 		out.Emits = rec.take()
+		if o.K == "nack" && len(o.More) > 0 {
+			out.Groups = groupByGoroutine(out.Emits)
+		}
 		c.Outs = append(c.Outs, out)
 		if fail != "" {
 			break
@@ -790,9 +859,8 @@ func (i infoJ) coq() string {
 	return cq.C("mkSI", cq.Z(i.SSRC), cq.Z(i.RTXSSRC), cq.Z(int64(i.RTXPT)), cq.B(i.Nack))
 }
 
-func (c respCase) toCase(buckets ...string) cq.Case {
-	steps := make([]string, 0, len(c.Outs))
-	resends, writes := 0, 0
+// stepTerms prints every executed operation and its observed output as Coq terms.
+func (c respCase) stepTerms(buckets []string) (opsT, outsT []string, bs []string, resends, writes int) {
 	for i, o := range c.Ops {
 		if i >= len(c.Outs) {
 			break
@@ -813,6 +881,9 @@ func (c respCase) toCase(buckets ...string) cq.Case {
 			resends += len(c.Outs[i].Emits)
 			if len(c.Outs[i].Emits) > 0 {
 				buckets = append(buckets, "nack-with-resend")
+				if o.FailW {
+					buckets = append(buckets, "resend-into-failing-writer")
+				}
 			} else {
 				buckets = append(buckets, "nack-without-resend")
 			}
@@ -828,15 +899,69 @@ func (c respCase) toCase(buckets ...string) cq.Case {
 		if c.Outs[i].Code != 0 {
 			buckets = append(buckets, fmt.Sprintf("write-err=%d", c.Outs[i].Code))
 		}
-		steps = append(steps, cq.T(op, cq.T(cq.Z(int64(c.Outs[i].Code)), cq.L(es))))
+		opsT = append(opsT, op)
+		outsT = append(outsT, cq.T(cq.Z(int64(c.Outs[i].Code)), cq.L(es)))
 	}
 	seen := map[string]bool{}
-	bs := []string{}
 	for _, b := range buckets {
 		if !seen[b] {
 			seen[b] = true
 			bs = append(bs, b)
 		}
+	}
+
+	return opsT, outsT, bs, resends, writes
+}
+
+func (c respCase) toCase(buckets ...string) cq.Case {
+	opsT, outsT, bs, resends, writes := c.stepTerms(buckets)
+	steps := make([]string, len(opsT))
+	for i := range opsT {
+		steps[i] = cq.T(opsT[i], outsT[i])
+	}
+
+	return cq.Case{
+		Coq:  cq.T(cq.Z(int64(c.Size)), cq.B(c.Copy), cq.Z(int64(c.Start)), cq.L(steps)),
+		JSON: c, Buckets: bs, Trivial: resends == 0 || writes < 2,
+	}
+}
+
+// toMultiCase prints the case for the set c04multi (Check/C04bCheck.v): steps are MS op out, or MN nacks groups
+// for a compound with several NACK packets.
+func (c respCase) toMultiCase(buckets ...string) cq.Case {
+	opsT, outsT, bs, resends, writes := c.stepTerms(buckets)
+	steps := make([]string, len(opsT))
+	conc := false
+	for i := range opsT {
+		o := c.Ops[i]
+		if o.K != "nack" || len(o.More) == 0 {
+			steps[i] = cq.C("MS", opsT[i], outsT[i])
+
+			continue
+		}
+		ns := []string{}
+		for _, nj := range append([]nackJ{{SSRC: o.SSRC, Pairs: o.Pairs}}, o.More...) {
+			ps := make([]string, len(nj.Pairs))
+			for k, p := range nj.Pairs {
+				ps[k] = cq.T(cq.Z(int64(p[0])), cq.Z(int64(p[1])))
+			}
+			ns = append(ns, cq.T(cq.Z(nj.SSRC), cq.L(ps)))
+		}
+		gs := make([]string, len(c.Outs[i].Groups))
+		for k, g := range c.Outs[i].Groups {
+			es := make([]string, len(g))
+			for j, e := range g {
+				es[j] = cq.T(cq.Z(int64(e.W)), e.H.coq(), coqInts(e.P))
+			}
+			gs[k] = cq.L(es)
+		}
+		if len(c.Outs[i].Groups) > 1 {
+			conc = true
+		}
+		steps[i] = cq.C("MN", cq.L(ns), cq.L(gs))
+	}
+	if conc {
+		bs = append(bs, "compound-several-goroutines-resent")
 	}
 
 	return cq.Case{
@@ -852,7 +977,7 @@ type genStream struct {
 	live bool
 }
 
-func genResp(r *rand.Rand) ([]respOp, int, bool, int, []string) {
+func genResp(r *rand.Rand, multi bool) ([]respOp, int, bool, int, []string) {
 	size := pickSize(r)
 	copyPkts := r.Intn(7) != 0
 	start := r.Intn(65536)
@@ -935,7 +1060,38 @@ func genResp(r *rand.Rand) ([]respOp, int, bool, int, []string) {
 				}
 				pairs[j] = [2]int{st.walk.request(r), blp}
 			}
-			ops = append(ops, respOp{K: "nack", SSRC: media, Pairs: pairs, Extra: r.Intn(6) == 0})
+			op := respOp{K: "nack", SSRC: media, Pairs: pairs, Extra: r.Intn(6) == 0}
+			if r.Intn(6) == 0 {
+				op.FailW = true
+				bk["downstream-error-during-resend"] = true
+			}
+			if multi && r.Intn(2) == 0 { // several NACK packets in one compound: concurrent resend goroutines
+				for j, nm := 0, 1+r.Intn(2); j < nm; j++ {
+					ost := st
+					switch r.Intn(4) {
+					case 0:
+						ost = streams[r.Intn(len(streams))]
+						bk["compound-other-stream"] = true
+					case 1:
+						bk["compound-same-stream"] = true
+					default:
+						bk["compound-same-stream"] = true
+					}
+					m := ost.info.SSRC
+					if r.Intn(10) == 0 {
+						m = 999
+						bk["compound-unknown-ssrc"] = true
+					}
+					blp := []int{0, 1, 3, 0xFFFF, r.Intn(65536)}[r.Intn(5)]
+					req := ost.walk.request(r)
+					if r.Intn(2) == 0 && ost.walk.any { // a number that is certainly retransmittable if the stream is still bound
+						req = ost.walk.hi
+					}
+					op.More = append(op.More, nackJ{SSRC: m, Pairs: [][2]int{{req, blp}}})
+				}
+				bk[fmt.Sprintf("compound-nacks=%d", 1+len(op.More))] = true
+			}
+			ops = append(ops, op)
 		case k < 96:
 			ops = append(ops, respOp{K: "unbind", Info: st.info})
 			bk["unbind"] = true
@@ -1082,6 +1238,147 @@ func stress(r *rand.Rand, rounds int) (int, []cq.ImplFailure) {
 	return checked, fails
 }
 
+// stressHold is the orchestrated schedule "the sender overruns the ring while a retransmission is inside the
+// downstream writer": ResponderSize 1..8; the writer that receives a retransmission takes a snapshot of the header
+// and payload it was handed, signals the sender and blocks; the sender then writes 3*size+4 further packets (the
+// requested packet is evicted from the ring, its pool buffers are handed to later NewPacket calls if they were
+// released) and only then lets the writer continue.  The writer compares what it was handed with its snapshot and
+// with the packet originally sent under that number.  A retransmission whose packet was released before or
+// during the downstream Write shows up as changed bytes.
+func stressHold(r *rand.Rand, rounds int) (int, []cq.ImplFailure) {
+	var fails []cq.ImplFailure
+	checked := 0
+	type sentT struct {
+		ts  uint32
+		pay []byte
+		h   hdrJ
+	}
+	for round := 0; round < rounds && len(fails) < 4; round++ {
+		size := []int{1, 2, 4, 8}[round%4]
+		rtx := round%8 >= 4
+		f, _ := nack.NewResponderInterceptor(nack.ResponderSize(uint16(size))) //nolint:gosec
+		icpt, _ := f.NewInterceptor("")
+		var mu sync.Mutex
+		sent := map[uint16]sentT{}
+		var bad []string
+		entered := make(chan struct{}, 64)
+		release := make(chan struct{})
+		n := 0
+		describe := func(h hdrJ, p []int) string {
+			if len(p) > 12 {
+				p = p[:12]
+			}
+
+			return fmt.Sprintf("seq=%d ts=%d ssrc=%d pt=%d csrc=%v ext=%v payload[:12]=%v", h.Seq, h.TS, h.SSRC, h.PT, h.CSRC, h.Xs, p)
+		}
+		down := interceptor.RTPWriterFunc(func(h *rtp.Header, p []byte, a interceptor.Attributes) (int, error) {
+			if a.Get("orig") != nil {
+				return len(p), nil
+			}
+			h0, p0 := projHdr(h), ints(p) // what the retransmission is when the writer is entered
+			entered <- struct{}{}
+			select {
+			case <-release:
+			case <-time.After(5 * time.Second):
+			}
+			h1, p1 := projHdr(h), ints(p) // ... and when a slow writer gets to put it on the wire
+			osn := uint16(h0.Seq)         //nolint:gosec
+			body := p0
+			if rtx {
+				if len(p0) < 2 {
+					body = nil
+				} else {
+					osn, body = uint16(p0[0])<<8|uint16(p0[1]), p0[2:] //nolint:gosec
+				}
+			}
+			mu.Lock()
+			defer mu.Unlock()
+			n++
+			if len(bad) >= 2 {
+				return len(p), nil
+			}
+			if h0.coq() != h1.coq() || coqInts(p0) != coqInts(p1) {
+				bad = append(bad, fmt.Sprintf("retransmission changed while inside the downstream writer: handed {%s}, after %d further sends {%s}",
+					describe(h0, p0), 3*size+4, describe(h1, p1)))
+
+				return len(p), nil
+			}
+			want, ok := sent[osn]
+			switch {
+			case !ok:
+				bad = append(bad, fmt.Sprintf("retransmission of a number never sent: {%s}", describe(h0, p0)))
+			case coqInts(body) != coqInts(ints(want.pay)) || h0.TS != int64(want.ts) ||
+				fmt.Sprint(h0.CSRC) != fmt.Sprint(want.h.CSRC) || fmt.Sprint(h0.Xs) != fmt.Sprint(want.h.Xs):
+				bad = append(bad, fmt.Sprintf("retransmission does not carry what was sent as %d: {%s}, sent {%s}", osn,
+					describe(h0, p0), describe(want.h, ints(want.pay))))
+			}
+
+			return len(p), nil
+		})
+		info := &interceptor.StreamInfo{SSRC: 5, RTCPFeedback: []interceptor.RTCPFeedback{{Type: "nack"}}}
+		if rtx {
+			info.SSRCRetransmission, info.PayloadTypeRetransmission = 6, 97
+		}
+		w := icpt.BindLocalStream(info, down)
+		var pending []byte
+		reader := icpt.BindRTCPReader(interceptor.RTCPReaderFunc(
+			func(b []byte, a interceptor.Attributes) (int, interceptor.Attributes, error) {
+				return copy(b, pending), a, nil
+			}))
+		base := runtime.NumGoroutine()
+		orig := interceptor.Attributes{}
+		orig.Set("orig", true)
+		next := uint16(r.Intn(65536)) //nolint:gosec
+		send := func() {
+			seq := next
+			next++
+			ts := r.Uint32()
+			pay := stressPayload(5, seq, ts, 1+r.Intn(60))
+			h := &rtp.Header{Version: 2, SSRC: 5, PayloadType: 96, SequenceNumber: seq, Timestamp: ts, CSRC: []uint32{uint32(seq), ts}}
+			_ = h.SetExtension(3, []byte{byte(seq), byte(seq >> 8), byte(ts)})
+			mu.Lock()
+			sent[seq] = sentT{ts: ts, pay: append([]byte{}, pay...), h: projHdr(h)}
+			mu.Unlock()
+			_, _ = w.Write(h, pay, orig)
+			scribble(h, pay)
+		}
+		buf := make([]byte, 1500)
+		for it := 0; it < 6; it++ {
+			for k := 0; k < size+1; k++ {
+				send()
+			}
+			// one NACK for the whole window: the goroutine blocks inside the writer with the first packet found
+			raw, _ := rtcp.Marshal([]rtcp.Packet{&rtcp.TransportLayerNack{MediaSSRC: 5, Nacks: []rtcp.NackPair{{PacketID: next - uint16(size), LostPackets: 0xFFFF}}}}) //nolint:gosec
+			pending = raw
+			_, _, _ = reader.Read(buf, interceptor.Attributes{})
+			select {
+			case <-entered:
+			case <-time.After(5 * time.Second):
+				fails = append(fails, cq.ImplFailure{Kind: "hang", Detail: "no retransmission reached the writer", Case: map[string]int{"round": round}})
+			}
+			for k := 0; k < 3*size+4; k++ { // overrun the ring while the retransmission is in flight
+				send()
+			}
+			close(release) // the remaining numbers of this NACK are outside the window by now
+			if !quiesce(base) {
+				fails = append(fails, cq.ImplFailure{Kind: "hang", Detail: "resend goroutines did not finish", Case: map[string]int{"round": round}})
+			}
+			for len(entered) > 0 {
+				<-entered
+			}
+			release = make(chan struct{})
+		}
+		_ = icpt.Close()
+		checked += n
+		for _, b := range bad {
+			fails = append(fails, cq.ImplFailure{Kind: "schedule-content", Detail: b,
+				Case: map[string]interface{}{"stress": "hold-in-writer", "round": round, "size": size, "rtx": rtx}})
+		}
+	}
+
+	return checked, fails
+}
+
 // ---------- main ----------
 
 func main() {
@@ -1100,7 +1397,11 @@ func main() {
 		Name: "c04resp", Import: imp, CaseType: "resp_case",
 		Checks: []string{"resp_mismatches", "resp_spec_failures"},
 	}
-	sets := []*cq.Set{bufSet, pfSet, respSet}
+	multiSet := &cq.Set{
+		Name: "c04multi", Import: "IV.Check.C04bCheck.\nFrom IV Require Import Model.RtpBuffer Model.PacketFactory Model.Responder",
+		CaseType: "multi_case", Checks: []string{"multi_mismatches", "multi_spec_failures"},
+	}
+	sets := []*cq.Set{bufSet, pfSet, respSet, multiSet}
 	var fails []cq.ImplFailure
 	load := func(path, bucket string) {
 		var probe map[string]interface{}
@@ -1121,6 +1422,14 @@ func main() {
 				fails = append(fails, cq.ImplFailure{Kind: "hang", Detail: fail, Case: rc})
 			}
 			respSet.Cases = append(respSet.Cases, rc.toCase(bucket))
+		case "c04multi":
+			var c respCase
+			cq.LoadReplay(path, &c)
+			rc, fail := runResp(c.Size, c.Copy, c.Start, c.Ops)
+			if fail != "" {
+				fails = append(fails, cq.ImplFailure{Kind: "hang", Detail: fail, Case: rc})
+			}
+			multiSet.Cases = append(multiSet.Cases, rc.toMultiCase(bucket))
 		}
 	}
 	if o.Replay != "" {
@@ -1142,18 +1451,28 @@ func main() {
 	for i, n := 0, o.Scale(500, 40000); i < n; i++ {
 		pfSet.Cases = append(pfSet.Cases, genPF(r))
 	}
-	for i, n := 0, o.Scale(1100, 60000); i < n; i++ {
-		ops, size, cp, start, bs := genResp(r)
+	for i, n := 0, o.Scale(950, 60000); i < n; i++ {
+		ops, size, cp, start, bs := genResp(r, false)
 		rc, fail := runResp(size, cp, start, ops)
 		if fail != "" {
 			fails = append(fails, cq.ImplFailure{Kind: "hang", Detail: fail, Case: rc})
 		}
 		respSet.Cases = append(respSet.Cases, rc.toCase(bs...))
 	}
+	for i, n := 0, o.Scale(300, 20000); i < n; i++ {
+		ops, size, cp, start, bs := genResp(r, true)
+		rc, fail := runResp(size, cp, start, ops)
+		if fail != "" {
+			fails = append(fails, cq.ImplFailure{Kind: "hang", Detail: fail, Case: rc})
+		}
+		multiSet.Cases = append(multiSet.Cases, rc.toMultiCase(bs...))
+	}
 	checked, sf := stress(r, o.Scale(8, 200))
 	fails = append(fails, sf...)
+	held, hf := stressHold(r, o.Scale(24, 400))
+	fails = append(fails, hf...)
 	cq.Write(o, "buf: Add/Get/Clear histories of 5..74 ops over all 16 sizes, non-trivial = at least one Get returned a packet; "+
 		"pf: 1..6 NewPacket calls on one factory (RTX on/off/half, both padding conventions, lengths 0..1461); "+
 		"resp: 1..3 streams, 8..52 API operations (write/nack/unbind/rebind/close), non-trivial = at least 2 writes and one retransmission observed",
-		sets, map[string]interface{}{"stress_resends_checked": checked}, fails)
+		sets, map[string]interface{}{"stress_resends_checked": checked, "stress_held_resends_checked": held}, fails)
 }
